@@ -3,4 +3,5 @@ package all
 
 import (
 	_ "verifharness/c04"
+	_ "verifharness/c18"
 )
